@@ -88,6 +88,8 @@ pub fn all() -> Vec<Box<dyn Check>> {
     v.push(Box::new(Reuse { property: "C08", family: "c08_monitor_on_faithful_history", inner: Box::new(c12::C12), quick_runs: 8000, thorough_runs: 120000 }));
     v.push(Box::new(Reuse { property: "C12", family: "c12_timer_cover_on_networks", inner: Box::new(C12Net(c01_exact())), quick_runs: 4000, thorough_runs: 90000 }));
     v.push(Box::new(Reuse { property: "C12", family: "c12_timer_cover_on_boundary_clock_tlvs", inner: Box::new(TimerCover(Box::new(c15::C15))), quick_runs: 8000, thorough_runs: 150000 }));
+    v.push(Box::new(Reuse { property: "C10", family: "c10_sequence_monitor_on_random_history", inner: Box::new(c08::C08Driver), quick_runs: 12000, thorough_runs: 180000 }));
+    v.push(Box::new(Reuse { property: "C10", family: "c10_sequence_monitor_on_networks", inner: Box::new(c01_noisy()), quick_runs: 1600, thorough_runs: 40000 }));
     // C17 part 1: the nesting-detecting lock runs in every scenario; these families report it
     v.push(Box::new(Reuse { property: "C17", family: "c17_lock_depth_on_random_history", inner: Box::new(c08::C08Driver), quick_runs: 16000, thorough_runs: 300000 }));
     v.push(Box::new(Reuse { property: "C17", family: "c17_lock_depth_on_networks", inner: Box::new(c01_noisy()), quick_runs: 2400, thorough_runs: 60000 }));
@@ -183,7 +185,7 @@ pub fn extras(property: &str) -> EvidenceExtras {
             e.rule = "each run = a slave port with a recording filter and a scripted parent; up to three Sync(/Follow_Up) exchanges and up to three Delay_Req/Delay_Resp exchanges (one-step or two-step, decoys from a non-parent and for another requester) whose constituent events are interleaved, duplicated and dropped by the tape; every measurement is compared with the formula on one exchange in exact 2^-32 ns integers; non-trivial = at least one measurement produced; distinct = distinct (event-kind sequence, measurement count) fingerprint".into();
         }
         "C10" => {
-            e.rule = "each run = one master port (E2E or P2P, any domain/sdoId/minor version, clock started anywhere in the PTP range with sub-ns phase and drift, TX timestamps prompt or late) driven by its timers for 20-200 intervals (one run in 40: 70 000 intervals to cross the sequence wrap) while scripted requesters inject Delay_Req / Pdelay_Req with arbitrary header fields; every emitted frame is decoded by the reference codec and by statime's own parser; non-trivial = more than 10 frames emitted; distinct = (mode, frame-type set, transition sequence) fingerprint".into();
+            e.rule = "each run = one master port (E2E or P2P, any domain/sdoId/minor version, clock started anywhere in the PTP range with sub-ns phase and drift, TX timestamps prompt or late) driven by its timers for 20-200 intervals (one run in 40: 70 000 intervals to cross the sequence wrap) while scripted requesters inject Delay_Req / Pdelay_Req with arbitrary header fields; every emitted frame is decoded by the reference codec and by statime's own parser; plus the per-port sequence-id monitor (Announce, Sync, Delay_Req, Pdelay_Req ids advance by one per emission across role changes, faults and idle timers) on random histories and generated networks; non-trivial = more than 10 frames emitted; distinct = (mode, frame-type set, transition sequence) fingerprint".into();
         }
         "C14" => {
             e.rule = "each run = a P2P port (started Listening, Master or Slave) with a recording filter, one to three consecutive Pdelay requests answered by one or two scripted responders (one-step / two-step) whose events (TX timestamp, Pdelay_Resp, Pdelay_Resp_Follow_Up, duplicates, omissions, responses for another requester, announce receipt timer, BMCA) are interleaved by the tape; exact integer formula check per measurement, Faulty entry/exit rules; plus the Faulty-role monitors on random histories; non-trivial = a measurement was produced or a second responder appeared; distinct = event-kind sequence fingerprint".into();
